@@ -105,6 +105,21 @@ static void genPairFARaw(uint64_t idx, vh::Rng& g, int& nsym, RFA& a, RFA& b, st
 	}
 	if (g.below(100) < static_cast<uint64_t>(R->param("corpus_percent", 5)) && genCorpusPairFA(g, nsym, a, b, kind)) return;
 	nsym = g.range(1, 3);
+	if (g.below(100) < static_cast<uint64_t>(R->param("wide_percent", 12)))
+	{	// (near-)universality questions: a tiny smaller automaton against a dense, highly nondeterministic bigger
+		// one — many pending pairs share the smaller state and differ only in equally large macro-states
+		// (work-list ordering and tie-breaks, antichain pruning; seeded changes m20, m61)
+		kind = "G3-wide"; nsym = g.range(2, 3);
+		int na = g.range(1, 2); a = RFA();
+		for (int q = 0; q < na; ++q) for (int sy = 0; sy < nsym; ++sy) if (na == 1 || g.chance(3, 4)) a.tr.insert(std::make_tuple(St(q), sy, St(g.below(na))));
+		a.start.insert(0); a.fin.insert(g.below(na)); if (g.chance(1, 2)) a.fin.insert(0);
+		int nb = g.range(4, S + 2); b = RFA();
+		for (int q = 0; q < nb; ++q) for (int sy = 0; sy < nsym; ++sy) { int d = g.range(g.chance(1, 6) ? 0 : 1, 3); for (int i = 0; i < d; ++i) b.tr.insert(std::make_tuple(St(q), sy, St(g.below(nb)))); }
+		int fpct = g.range(40, 95); for (int q = 0; q < nb; ++q) if (g.below(100) < static_cast<uint64_t>(fpct)) b.fin.insert(q);
+		int nst = g.range(1, 3); for (int i = 0; i < nst; ++i) b.start.insert(g.below(nb));
+		if (b.fin.empty()) b.fin.insert(0);
+		return;
+	}
 	int k = static_cast<int>(g.below(10));
 	if (k < 2) { kind = "G2-random"; a = gen::randFA(g, S, T, nsym); b = gen::randFA(g, S, T, nsym); }
 	else if (k < 5) { kind = "G2-live"; a = gen::randLiveFA(g, S, T, nsym); b = gen::randLiveFA(g, S, T + 4, nsym); }
